@@ -45,10 +45,24 @@ class Tokenizer:
             macros_hash_key = sorted(macros.items())
         else:
             macros_hash_key = macros
-        hash_key = str((macros_hash_key, productions))
+        self._hash_key = str((macros_hash_key, productions))
+        self._macros = macros
+        self._productions = productions
+        self._bind()
+
+        self._doComments = doComments
+        self._pushed = []
+
+    def _bind(self):
+        """Take the compiled productions from the cache (compiling them if
+        they are not there). Done again before every run, as
+        ``settings.set`` empties the cache when it changes the productions,
+        and tokenizers which exist by then are to follow."""
+        hash_key = self._hash_key
         if hash_key in _TOKENIZER_CACHE:
             (tokenmatches, commentmatcher, urimatcher) = _TOKENIZER_CACHE[hash_key]
         else:
+            macros, productions = self._macros, self._productions
             if not macros:
                 macros = MACROS
             if not productions:
@@ -63,9 +77,6 @@ class Tokenizer:
         self.tokenmatches = tokenmatches
         self.commentmatcher = commentmatcher
         self.urimatcher = urimatcher
-
-        self._doComments = doComments
-        self._pushed = []
 
     def _expand_macros(self, macros, productions):
         """returns macro expanded productions, order of productions is kept"""
@@ -134,6 +145,8 @@ class Tokenizer:
         def _normalize(value):
             "normalize and do unicodesub"
             return normalize(self.unicodesub(_repl, value))
+
+        self._bind()
 
         line = col = 1
         # The current starting character. We just increase this instead of
